@@ -1,0 +1,216 @@
+//go:build verif
+
+// Contracts for package compactindexsized (comment-only; read by /verif/vcgo, build tag verif).
+package compactindexsized
+
+//@ spec func le32p(b *[16]byte, o int) uint32 = uint32(b[o]) + uint32(b[o+1])*256 + uint32(b[o+2])*65536 + uint32(b[o+3])*16777216
+//@ spec func le48p(b *[16]byte, o int) uint64 = uint64(b[o]) + uint64(b[o+1])*256 + uint64(b[o+2])*65536 + uint64(b[o+3])*16777216 + uint64(b[o+4])*4294967296 + uint64(b[o+5])*1099511627776
+
+// ---- little-endian helpers ----
+
+//@ func uintLe
+//@   mode bv
+//@   ensures forall i int :: 0 <= i && i < 8 ==> byte(result >> (8*uint(i))) == ite(i < len(buf), buf[i], 0)
+
+//@ func putUintLe
+//@   mode bv
+//@   modifies buf
+//@   ensures forall i int :: 0 <= i && i < 8 ==> (i < len(buf) ==> buf[i] == byte(x >> (8*uint(i))))
+//@   ensures forall i int :: 8 <= i && i < len(buf) ==> buf[i] == old(buf[i])
+
+//@ func hashUint64
+//@   mode bv
+
+//@ func EntryHash64
+//@   mode bv
+//@   trusted
+
+//@ func maxCls64
+//@   mode bv
+//@   trusted
+
+// ---- bucket choice ----
+
+//@ func (*Header) BucketHash
+//@   mode bv
+//@   requires h != nil
+//@   panics h.NumBuckets == 0
+//@   ensures uint64(result) < uint64(h.NumBuckets)
+
+// ---- bucket header codec ----
+
+//@ func (*BucketHeader) Store
+//@   mode bv
+//@   requires b != nil && buf != nil
+//@   modifies buf
+//@   ensures le32p(buf, 0) == b.HashDomain && le32p(buf, 4) == b.NumEntries && buf[8] == b.HashLen && buf[9] == 0
+//@   ensures le48p(buf, 10) == b.FileOffset % 281474976710656
+
+//@ func (*BucketHeader) Load
+//@   mode bv
+//@   requires b != nil && buf != nil
+//@   modifies b
+//@   ensures b.HashDomain == le32p(buf, 0) && b.NumEntries == le32p(buf, 4) && b.HashLen == buf[8] && b.FileOffset == le48p(buf, 10)
+//@   ensures b.headerSize == old(b.headerSize)
+
+//@ func (*BucketHeader) Hash
+//@   mode bv
+//@   requires b != nil
+//@   ensures b.HashLen == 3 ==> result < 16777216
+
+// ---- entry codec ----
+
+//@ func (*BucketDescriptor) unmarshalEntry
+//@   mode bv
+//@   requires b != nil
+//@   requires int(b.HashLen) + int(b.OffsetWidth) <= 255 && int(b.HashLen) <= 8 && len(buf) >= int(b.HashLen) + int(b.OffsetWidth)
+//@   ensures forall i int :: 0 <= i && i < 8 ==> byte(e.Hash >> (8*uint(i))) == ite(i < int(b.HashLen), buf[i], 0)
+//@   ensures len(e.Value) == int(b.OffsetWidth) && fresh(e.Value)
+//@   ensures forall j int :: 0 <= j && j < int(b.OffsetWidth) ==> e.Value[j] == buf[int(b.HashLen)+j]
+
+//@ func (*BucketDescriptor) marshalEntry
+//@   mode bv
+//@   requires b != nil
+//@   requires int(b.HashLen) + int(b.OffsetWidth) <= 255 && int(b.HashLen) <= 8 && int(b.Stride) == int(b.HashLen) + int(b.OffsetWidth)
+//@   requires len(e.Value) == int(b.OffsetWidth) && ref(e.Value) != ref(buf)
+//@   panics len(buf) < int(b.Stride)
+//@   modifies buf
+//@   ensures forall i int :: 0 <= i && i < 8 ==> (i < int(b.HashLen) ==> buf[i] == byte(e.Hash >> (8*uint(i))))
+//@   ensures forall j int :: 0 <= j && j < int(b.OffsetWidth) ==> buf[int(b.HashLen)+j] == e.Value[j]
+
+// ---- stride / offsets ----
+
+//@ func (*DB) GetValueSize
+//@   mode int
+//@   requires db != nil && db.Header != nil
+//@   panics db.Header.ValueSize == 0
+//@   ensures result == db.Header.ValueSize
+
+//@ func (*DB) entryStride
+//@   mode int
+//@   requires db != nil && db.Header != nil
+//@   requires 1 <= db.Header.ValueSize && db.Header.ValueSize <= 252
+//@   ensures int(result) == 3 + int(db.Header.ValueSize)
+
+//@ func (*Builder) getValueSize
+//@   mode int
+//@   requires b != nil
+//@   ensures b.Header.ValueSize <= 9223372036854775807 ==> result == int(b.Header.ValueSize)
+
+//@ func (*Builder) getEntryStride
+//@   mode int
+//@   requires b != nil
+//@   requires 1 <= b.Header.ValueSize && b.Header.ValueSize <= 252
+//@   ensures int(result) == 3 + int(b.Header.ValueSize)
+
+//@ func bucketOffset
+//@   mode int
+//@   requires 0 <= headerSize && headerSize <= 4611686018427387904 && i <= 4294967296
+//@   ensures result == headerSize + int64(i)*16
+
+//@ func minInt64
+//@   mode int
+//@   ensures result <= a && result <= b && (result == a || result == b)
+
+// ---- search over the eytzinger layout ----
+// H(t) below is res0(getter, t-1).Hash: the hash stored in node t (1-based) of the implicit tree.
+
+//@ func searchEytzinger
+//@   mode int
+//@   fnpure getter
+//@   requires min == 0 && 0 <= max && max <= 1099511627776 && getter != nil
+//@   requires forall t int :: 0 <= t && t < max ==> res1(getter, t) != ErrNotFound
+//@   requires forall j, k int :: 1 <= k && k <= max && 1 <= j && j <= max && anc(j, 2*k) ==> res0(getter, j-1).Hash < res0(getter, k-1).Hash
+//@   requires forall j, k int :: 1 <= k && k <= max && 1 <= j && j <= max && anc(j, 2*k+1) ==> res0(getter, j-1).Hash > res0(getter, k-1).Hash
+//@   ensures result1 == nil ==> exists t int :: 0 <= t && t < max && res1(getter, t) == nil && res0(getter, t).Hash == x && result0 == res0(getter, t).Value
+//@   ensures result1 == ErrNotFound ==> forall t int :: 0 <= t && t < max ==> res0(getter, t).Hash != x
+//@   ensures result1 != nil && result1 != ErrNotFound ==> exists t int :: 0 <= t && t < max && res1(getter, t) == result1
+//@   use forall t int :: ancRoot(t)
+//@   loop 0 invariant 0 <= index
+//@   loop 0 invariant forall t int :: 1 <= t && t <= max && res0(getter, t-1).Hash == x ==> anc(t, index+1)
+//@   loop 0 use forall t int :: t > index+1 ==> ancSplit(t, index+1)
+//@   loop 0 use forall t int :: ancBelow(t, index+1)
+//@   loop 0 decreases max - index
+
+// ---- reading entries from the file (ghost: fsize(r), fbyte(r, k) = size and bytes of the file behind r) ----
+
+//@ func (*BucketHeader) readFrom
+//@   mode int
+//@   requires b != nil && rd != nil && 0 <= b.headerSize && b.headerSize <= 4611686018427387904 && i <= 4294967296
+//@   modifies b
+//@   ensures result == nil ==> b.headerSize + int64(i)*16 + 16 <= fsize(rd)
+//@   ensures result == nil ==> b.HashLen == fbyte(rd, b.headerSize + int64(i)*16 + 8) && b.headerSize == old(b.headerSize)
+//@   ensures result != nil ==> result != ErrNotFound
+
+//@ func (*Bucket) loadEntry
+//@   mode int
+//@   requires b != nil && b.Entries != nil && 0 <= i && i <= 4294967296
+//@   requires b.HashLen == 3 && int(b.OffsetWidth) <= 252 && int(b.Stride) == 3 + int(b.OffsetWidth)
+//@   ensures result1 == nil ==> (i+1)*int(b.Stride) <= fsize(b.Entries)
+//@   ensures result1 == nil ==> forall j int :: 0 <= j && j < 8 ==> byte(result0.Hash >> (8*uint(j))) == ite(j < 3, fbyte(b.Entries, i*int(b.Stride)+j), 0)
+//@   ensures result1 == nil ==> len(result0.Value) == int(b.OffsetWidth) && fresh(result0.Value)
+//@   ensures result1 == nil ==> forall j int :: 0 <= j && j < int(b.OffsetWidth) ==> result0.Value[j] == fbyte(b.Entries, i*int(b.Stride)+3+j)
+//@   ensures result1 != nil ==> result1 != ErrNotFound
+
+//@ func (*Bucket) Lookup
+//@   mode int
+//@   requires b != nil && b.NumEntries <= 16777216
+//@   requires forall t int :: 0 <= t && t < int(b.NumEntries) ==> res1(b.loadEntry, t) != ErrNotFound
+//@   requires forall j, k int :: 1 <= k && k <= int(b.NumEntries) && 1 <= j && j <= int(b.NumEntries) && anc(j, 2*k) ==> res0(b.loadEntry, j-1).Hash < res0(b.loadEntry, k-1).Hash
+//@   requires forall j, k int :: 1 <= k && k <= int(b.NumEntries) && 1 <= j && j <= int(b.NumEntries) && anc(j, 2*k+1) ==> res0(b.loadEntry, j-1).Hash > res0(b.loadEntry, k-1).Hash
+//@   ensures result1 == nil ==> exists t int :: 0 <= t && t < int(b.NumEntries) && res1(b.loadEntry, t) == nil && result0 == res0(b.loadEntry, t).Value
+//@   ensures result1 != nil && result1 != ErrNotFound ==> exists t int :: 0 <= t && t < int(b.NumEntries) && res1(b.loadEntry, t) == result1
+
+// ---- header ----
+
+//@ func (*Header) Load
+//@   mode int
+//@   modifies h
+//@   ensures result == nil ==> 1 <= h.ValueSize && h.NumBuckets >= 1 && h.Metadata != nil
+//@   ensures result != nil ==> result != ErrNotFound
+
+// ---- reader handle ----
+
+//@ spec func validDB(db *DB) bool = db != nil && db.Header != nil && db.Stream != nil && 1 <= db.Header.ValueSize && db.Header.NumBuckets >= 1 && 0 <= db.headerSize && db.headerSize <= 4294967307
+
+//@ func Open
+//@   mode int
+//@   requires stream != nil
+//@   ensures result1 == nil ==> validDB(result0) && fresh(result0)
+//@   ensures result1 != nil ==> result1 != ErrNotFound
+
+//@ func (*DB) GetBucket
+//@   mode int
+//@   requires validDB(db)
+//@   ensures result1 == nil ==> result0 != nil && fresh(result0) && result0.Entries != nil && db.Header.ValueSize <= 252
+//@   ensures result1 == nil ==> result0.OffsetWidth == uint8(db.Header.ValueSize) && int(result0.Stride) == 3 + int(db.Header.ValueSize)
+//@   ensures result1 == nil ==> result0.HashLen == fbyte(db.Stream, db.headerSize + int64(i)*16 + 8)
+//@   ensures result1 != nil ==> result1 != ErrNotFound
+
+//@ func (*DB) LookupBucket
+//@   mode int
+//@   requires validDB(db)
+//@   ensures result1 != nil ==> result1 != ErrNotFound
+
+// ---- builder ----
+
+//@ spec func validBuilder(b *Builder) bool = b != nil && 1 <= b.Header.ValueSize && b.Header.ValueSize <= 252 && b.Header.NumBuckets >= 1 && len(b.buckets) >= int(b.Header.NumBuckets)
+
+//@ func NewBuilderSized
+//@   mode int
+//@   ensures result1 == nil ==> result0 != nil && fresh(result0)
+//@   ensures result1 == nil ==> 1 <= result0.Header.ValueSize && result0.Header.ValueSize <= 252 && result0.Header.ValueSize == uint64(valueSizeBytes)
+//@   ensures result1 == nil && numItems <= 40000000000000 ==> result0.Header.NumBuckets >= 1 && len(result0.buckets) == int(result0.Header.NumBuckets)
+
+//@ func (*tempBucket) writeTuple
+//@   mode int
+//@   requires b != nil && b.writer != nil && b.valueSize <= 255
+//@   requires len(key) <= 65535 && len(value) <= int(b.valueSize)
+//@   modifies b
+
+//@ func (*Builder) Insert
+//@   mode int
+//@   requires validBuilder(b)
+//@   requires forall k int :: 0 <= k && k < len(b.buckets) ==> b.buckets[k].writer != nil && b.buckets[k].valueSize == uint(b.Header.ValueSize)
+//@   modifies all
+//@   ensures result == nil ==> len(key) <= 65535 && len(value) <= int(b.Header.ValueSize)
